@@ -1,7 +1,7 @@
 SPECIFICATION Spec
 CONSTANTS D = 4
   Paths = {"a.ttf", "sub/b.otf"}
-  Contents = {1, 2, 9}
+  Contents = {1, 4, 9}
 INVARIANT RefreshEqScratch
 INVARIANT EntriesFaithful
 INVARIANT CacheFaithful
